@@ -396,6 +396,12 @@ func (o *Oracles) checkSnapshot(in *Instance, op *DiskOp) {
 			o.unconfirmedRestores[in.ID()]++
 			o.UserRestored(m.Index, st)
 			o.stat("user-restore-snapshot")
+			// C20/R5: refused while a leadership transfer is in progress. The flag is
+			// raised by the leader loop itself, which is also the thread writing
+			// this snapshot: raised now means it was raised when the call was taken.
+			if in.R != nil && in.R.VerifLeadershipTransferInProgress() {
+				o.w.violate("C20", "R5", "C20/R5/restore-performed-during-a-leadership-transfer", "%s writes the state supplied to Restore as a snapshot (burned index %d) while its leadership transfer is in progress", in.ID(), m.Index)
+			}
 			// C20/R5: refused while a configuration change is uncommitted
 			if _, ci := LatestCfgInDisk(in.disk, false); ci > in.R.CommitIndex() {
 				o.w.violate("C20", "R5", "C20/R5/restore-accepted-with-uncommitted-configuration", "%s takes a user restore at burned index %d while its configuration entry %d is above its commit index %d", in.ID(), m.Index, ci, in.R.CommitIndex())
